@@ -77,10 +77,20 @@ impl WriteCircuitBreaker {
                 let now = current_timestamp();
                 let last_failure = self.last_failure_time.load(Ordering::Acquire);
 
-                if now - last_failure >= self.recovery_timeout.as_millis() as u64 {
-                    // Transition to half-open to test recovery
-                    self.transition_to_half_open();
-                    true
+                // A concurrent failure report (or a clock step) can make `last_failure` newer
+                // than `now`: no time has passed then
+                if now.saturating_sub(last_failure) >= self.recovery_timeout.as_millis() as u64 {
+                    // Transition to half-open to test recovery. Only the request that performs
+                    // the transition is admitted for free; it is the first probe of the episode
+                    // and every request that lost the race is counted like any other probe.
+                    if self.transition_to_half_open() {
+                        self.half_open_call_count.fetch_add(1, Ordering::AcqRel);
+                        true
+                    } else {
+                        let current_calls =
+                            self.half_open_call_count.fetch_add(1, Ordering::AcqRel);
+                        current_calls < self.half_open_max_calls
+                    }
                 } else {
                     false // Still in failure mode
                 }
@@ -148,7 +158,7 @@ impl WriteCircuitBreaker {
             CircuitState::Open => {
                 let now = current_timestamp();
                 let last_failure = self.last_failure_time.load(Ordering::Acquire);
-                let elapsed = Duration::from_millis(now - last_failure);
+                let elapsed = Duration::from_millis(now.saturating_sub(last_failure));
 
                 if elapsed >= self.recovery_timeout {
                     Some(Duration::ZERO) // Ready to recover now
@@ -182,17 +192,19 @@ impl WriteCircuitBreaker {
         self.half_open_success_count.store(0, Ordering::Release);
     }
 
-    fn transition_to_half_open(&self) {
-        // Only transition if we're currently Open
-        let _ = self.state.compare_exchange(
-            CircuitState::Open as u8,
-            CircuitState::HalfOpen as u8,
-            Ordering::AcqRel,
-            Ordering::Acquire,
-        );
-        // Reset half-open counters
-        self.half_open_call_count.store(0, Ordering::Release);
-        self.half_open_success_count.store(0, Ordering::Release);
+    /// Returns whether this call performed the transition.
+    fn transition_to_half_open(&self) -> bool {
+        // Only transition if we're currently Open. The half-open counters were reset when the
+        // circuit opened; resetting them here again would let a request that lost the race
+        // wipe the probes already counted in the running episode.
+        self.state
+            .compare_exchange(
+                CircuitState::Open as u8,
+                CircuitState::HalfOpen as u8,
+                Ordering::AcqRel,
+                Ordering::Acquire,
+            )
+            .is_ok()
     }
 
     fn transition_to_closed(&self) {
